@@ -1,4 +1,5 @@
 import Model.Ecdsa
+import Proofs.AbsEcdsa
 import Extracted.Guards
 import Extracted.Consts
 
@@ -74,6 +75,18 @@ theorem tie_length_guard (len nLen : Int) (hn : nLen = 32) :
   subst hn
   simp [Extracted.Guards.crypto_pubKeyECDSA_verifyHash_g0, Extracted.Guards.crypto_ecdsaAlgo_signatureFormatCheck_g0]
 
+/-! ### group-level facts (abstract group of prime order `n`, `xc (-P) = xc P`) -/
+
+/-- the only other signature sharing `r` that verifies is the twin `(r, n - s)` -/
+theorem verify_twin {n : ℕ} [Fact n.Prime] (E : EcGroup n) (Q : E.G) (e r s : ZMod n) :
+    ecVerify E Q e r s ↔ ecVerify E Q e r (-s) := ecVerify_twin E Q e r s
+
+/-- every signature made with a non-zero nonce (and non-zero `r`, `s`, as `Sign` guarantees by retrying) verifies -/
+theorem sign_verify {n : ℕ} [Fact n.Prime] (E : EcGroup n) (d k e : ZMod n) (hk : k ≠ 0)
+    (hr : E.xc (k • E.g) ≠ 0) (hs : k⁻¹ * (e + E.xc (k • E.g) * d) ≠ 0) :
+    ecVerify E (d • E.g) e (E.xc (k • E.g)) (k⁻¹ * (e + E.xc (k • E.g) * d)) :=
+  ec_sign_verify E d k e hk hr hs
+
 /-! non-vacuity: an honest signature verifies in the model (P-256, d = 12345, k = 999) -/
 example : (match publicKeyOf p256 12345, signWith p256 12345 999 (zeros 32) with
     | some Q, some sig => verifyHash p256 Q (zeros 32) sig
@@ -86,3 +99,5 @@ end Props.C11
 #print axioms Props.C11.verify_uses_leftmost_256_bits
 #print axioms Props.C11.tie_hasher_guard
 #print axioms Props.C11.tie_length_guard
+#print axioms Props.C11.verify_twin
+#print axioms Props.C11.sign_verify
